@@ -314,7 +314,12 @@ func OpenRelation(dbName string, forceWALSync bool) (*RelationService, error) {
 	if err != nil {
 		return nil, err
 	}
-	if err := fs.open(); err != nil {
+	// the flusher is already running: read the header under the lock it
+	// takes before it looks at the header fields
+	fs.lockExclusive()
+	err = fs.open()
+	fs.unlockExclusive()
+	if err != nil {
 		return nil, err
 	}
 	wal, err := newWal(dbName, forceWALSync)
@@ -365,7 +370,9 @@ func CreateDB(dbName string) error {
 		return ErrDBExists
 	}
 
-	fs, err := newFileStore(path, true)
+	// no background flusher: the catalog is built without the store lock and
+	// flushed explicitly below
+	fs, err := newFileStore(path, false)
 	if err != nil {
 		return err
 	}
